@@ -381,6 +381,83 @@ func autoRefreshOnce() *sched.Scenario {
 	}
 }
 
+// Q6: a provider that was looked up while unknown (a remembered-absent entry,
+// since merged into the main map) and then appears at the source: a refresh
+// publishes it through the update map while a reader lists and looks up. What
+// a reader is given by a lookup it is also given by the listing that follows,
+// and at rest lookup and listing agree for every provider.
+func appearsAfterRememberedAbsent() *sched.Scenario {
+	name := "Q6-provider-appears-after-being-remembered-absent"
+	pX, pY := fixture.Key("ed25519", 60).ID, fixture.Key("ed25519", 61).ID
+	return &sched.Scenario{Name: name, AfterStep: afterStep(map[string]bool{"R1": true}),
+		Setup: func(e *sched.Exec) ([]sched.Thread, func()) {
+			src := &source{e: e, recs: map[peer.ID]int{pP: 1}}
+			pc, err := pcache.New(pcache.WithSource(src), pcache.WithRefreshInterval(0), pcache.WithTTL(time.Hour))
+			if err != nil {
+				panic(err)
+			}
+			// two lookups of unknown providers: the second one's update is
+			// merged into the main map (with one cached provider the threshold
+			// is two updates), so both absent entries now live there
+			for _, id := range []peer.ID{pX, pY} {
+				if pi, err := pc.Get(context.Background(), id); pi != nil || err != nil {
+					panic(fmt.Sprint("set-up lookup of an unknown provider: ", pi, err))
+				}
+			}
+			src.mu.Lock()
+			src.recs[pX] = 1
+			src.gated = true
+			src.mu.Unlock()
+			listed := func(id peer.ID) bool {
+				for _, x := range pc.List() {
+					if x != nil && x.AddrInfo.ID == id {
+						return true
+					}
+				}
+				return false
+			}
+			ths := []sched.Thread{
+				{Name: "W", Fn: func() {
+					e.Log("W Refresh begin")
+					err := pc.Refresh(context.Background())
+					e.Log("W Refresh end err=%v", err)
+				}},
+				{Name: "R1", Fn: func() {
+					for i := 0; i < 2; i++ {
+						pi, err := pc.Get(context.Background(), pX)
+						e.Log("R1 Get X=%v err=%v", pi != nil, err)
+						l := listed(pX)
+						e.Log("R1 List X=%v P=%v", l, listed(pP))
+						if pi != nil && !l {
+							e.Log("R1 inconsistent: X was returned by Get and is missing from the List that followed")
+						}
+					}
+				}},
+			}
+			return ths, func() {
+				for _, id := range []peer.ID{pP, pX} {
+					pi, _ := pc.Get(context.Background(), id)
+					if l := listed(id); l != (pi != nil) {
+						e.Log("rest inconsistent: Get(%s) present=%v, List present=%v", id.String()[len(id.String())-4:], pi != nil, l)
+					}
+				}
+			}
+		},
+		Check: func(e *sched.Exec) []sched.Finding {
+			out := checkReaders(e, name, []string{"W", "R1"}, map[int]bool{1: true})
+			for _, l := range e.Obs() {
+				switch {
+				case strings.Contains(l, " inconsistent: "):
+					out = append(out, sched.Finding{Sig: name + ":provider-returned-by-lookup-missing-from-listing", Msg: l})
+				case strings.HasPrefix(l, "R1 List ") && strings.HasSuffix(l, "P=false"):
+					out = append(out, sched.Finding{Sig: name + ":cached-provider-reported-missing", Msg: l})
+				}
+			}
+			return out
+		},
+	}
+}
+
 // Q5: the refresh interval has elapsed and the source is slow (gated): two
 // readers whose first operations differ (a listing, a result expansion, a
 // lookup). Whichever read comes first after the interval, none of them waits
@@ -430,7 +507,7 @@ func autoRefreshDueReaders() *sched.Scenario {
 
 func TestCheck(t *testing.T) {
 	r := vp.New("C07", "model_checking",
-		"scenarios on the real ProviderCache built with the instrumentation overlay, with a fake source whose Fetch/FetchAll are scheduling points (a writer can be parked inside a source call while it holds the write lock): Q1 one and two readers (Get, List, GetResults, Get of a provider cached by preload) vs a Refresh that moves that provider from version 1 to 2 and adds another, without and with filler providers so that the refresh rebuilds the main map; Q2 a reader vs a lookup of an uncached provider (miss-fetch); Q4 a refresh, a miss-fetch and a reader together (two writers publishing one after the other), with a final read once everything is at rest; Q3 two lookups after the refresh interval elapsed (virtual time); Q5 the same moment with a slow source and two readers whose first operation is a listing / a result expansion. In every scenario a source call made on a reader's own goroutine is a violation (a read of a cached provider never does a writer's work). All interleavings at the scheduling points (atomic load/store/CAS of the snapshot pointer and refresh flag, write-lock channel operations, spawns, source calls, observations) up to the preemption bound. At every quiescence a reader released last must be parked at its next point or finished (otherwise it waits for a writer). states = distinct decision states; transitions = scheduling steps; traces = executions of the real cache.",
+		"scenarios on the real ProviderCache built with the instrumentation overlay, with a fake source whose Fetch/FetchAll are scheduling points (a writer can be parked inside a source call while it holds the write lock): Q1 one and two readers (Get, List, GetResults, Get of a provider cached by preload) vs a Refresh that moves that provider from version 1 to 2 and adds another, without and with filler providers so that the refresh rebuilds the main map; Q2 a reader vs a lookup of an uncached provider (miss-fetch); Q4 a refresh, a miss-fetch and a reader together (two writers publishing one after the other), with a final read once everything is at rest; Q3 two lookups after the refresh interval elapsed (virtual time); Q5 the same moment with a slow source and two readers whose first operation is a listing / a result expansion. Q6 a provider that was looked up while unknown (remembered absent, merged into the main map) appears and is published by a refresh while a reader looks it up and lists (lookup and listing must agree). In every scenario a source call made on a reader's own goroutine is a violation (a read of a cached provider never does a writer's work). All interleavings at the scheduling points (atomic load/store/CAS of the snapshot pointer and refresh flag, write-lock channel operations, spawns, source calls, observations) up to the preemption bound. At every quiescence a reader released last must be parked at its next point or finished (otherwise it waits for a writer). states = distinct decision states; transitions = scheduling steps; traces = executions of the real cache.",
 		"data races are NOT decided here: a cooperative scheduler's hand-offs are happens-before edges; they are the business of the separate free-running -race pass of the same operations (package c07race, run by the driver, sampled and declared non-exhaustive)",
 		"at most 2 readers; sequential consistency of the atomics is assumed",
 	)
@@ -443,7 +520,7 @@ func TestCheck(t *testing.T) {
 	if vp.Thorough() {
 		bound = 3
 	}
-	scs := []*sched.Scenario{readersVsRefresh(1, 0), readersVsRefresh(1, 3), readerVsMissFetch(), autoRefreshOnce(), autoRefreshDueReaders(), refreshAndMissFetch(), readersVsRefresh(2, 0)}
+	scs := []*sched.Scenario{readersVsRefresh(1, 0), readersVsRefresh(1, 3), readerVsMissFetch(), autoRefreshOnce(), autoRefreshDueReaders(), appearsAfterRememberedAbsent(), refreshAndMissFetch(), readersVsRefresh(2, 0)}
 	r.Bounds(map[string]any{"preemption_bound": bound, "scenarios": len(scs)})
 	budget := 0.0
 	if v := os.Getenv("VERIF_BUDGET_S"); v != "" {
